@@ -70,6 +70,8 @@ def _lhs(body, p):
 
 if __name__ == "__main__":
     crate, pat = sys.argv[1], sys.argv[2]
+    if len(sys.argv) > 3:
+        mir.RENDER_MAX[0] = int(sys.argv[3])
     fp = facts.ensure_facts()
     prog = mir.Program(fp)
     for b in prog.find(crate, pat):
